@@ -4,6 +4,8 @@ package main
 // frame construction / decoding shapes, fresh decode targets, guard facts with caller context.
 
 import (
+	"sort"
+	"go/constant"
 	"fmt"
 	"go/token"
 	"go/types"
@@ -611,4 +613,63 @@ func compiledPatterns(p *Prog, f *ssa.Function) []CallSite {
 		}
 	}
 	return out
+}
+
+// patternTexts: the constant pattern(s) a regexp.MustCompile call may be given: a constant, or an element of a local
+// list of constants the call sits in a loop over (`for _, pat := range []string{p1, p2} { regexp.MustCompile(pat) }`).
+// ok is false if the argument is neither.
+func patternTexts(arg ssa.Value) ([]string, bool) {
+	konst := func(v ssa.Value) (string, bool) {
+		k, isK := v.(*ssa.Const)
+		if !isK || k.Value == nil || k.Value.Kind() != constant.String {
+			return "", false
+		}
+		return constant.StringVal(k.Value), true
+	}
+	if s, ok := konst(arg); ok {
+		return []string{s}, true
+	}
+	ld, ok := arg.(*ssa.UnOp)
+	if !ok || ld.Op != token.MUL {
+		return nil, false
+	}
+	ia, ok := ld.X.(*ssa.IndexAddr)
+	if !ok {
+		return nil, false
+	}
+	base := ia.X
+	if sl, isSl := base.(*ssa.Slice); isSl {
+		base = sl.X
+	}
+	arr, ok := base.(*ssa.Alloc)
+	if !ok {
+		return nil, false
+	}
+	var out []string
+	for _, ref := range *arr.Referrers() {
+		switch x := ref.(type) {
+		case *ssa.IndexAddr:
+			for _, r2 := range *x.Referrers() {
+				switch y := r2.(type) {
+				case *ssa.Store:
+					s, isK := konst(y.Val)
+					if !isK || y.Addr != ssa.Value(x) {
+						return nil, false
+					}
+					out = append(out, s)
+				case *ssa.UnOp:
+					if y.Op != token.MUL {
+						return nil, false
+					}
+				default:
+					return nil, false
+				}
+			}
+		case *ssa.Slice, *ssa.DebugRef:
+		default:
+			return nil, false
+		}
+	}
+	sort.Strings(out)
+	return out, len(out) > 0
 }
